@@ -98,9 +98,9 @@ pub fn run(prop: &str, seed: u64, tier_thorough: bool, trace_path: Option<&str>,
     let mut trace: Vec<String> = vec![];
     let have_xz = xz_cli_decode(&[], "lzma").is_some();
     rep.add("xz_cli_available", have_xz as u64);
-    let mut lens: Vec<usize> = vec![0, 1, 2, 3, 17, 100, 1000, 65535, 65536, 65537];
+    let mut lens: Vec<usize> = vec![0, 1, 2, 3, 17, 100, 111, 112, 113, 127, 128, 129, 1000, 16367, 16368, 16369, 16383, 16384, 16385, 65535, 65536, 65537];
     if tier_thorough {
-        lens.extend_from_slice(&[131071, 131072, 131073, 196608, 300000, 1 << 20]);
+        lens.extend_from_slice(&[131071, 131072, 131073, 196608, 300000, 1 << 20, 2097043, 2097151, 2097152, 2097153]);
     } else {
         lens.extend_from_slice(&[131072, 131073]);
     }
